@@ -55,7 +55,13 @@ HEAD = {1: 5, 2: 5, 3: 2, 4: 2, 5: 1}
 def analyse(pid, case, obs):
     """The property, stated on a trace (either side).  Returns a list of failure descriptions."""
     ops = parse(case)
-    fails = []
+    allf = []
+
+    class _F:
+        """collects (owner, text); owner is the property the failing clause belongs to"""
+        def append(self, text, owner="C13"):
+            allf.append((owner, text))
+    fails = _F()
     acc = [(0, K)]
     holder = None
     cur = {}          # tid -> dict for the call in progress
@@ -81,15 +87,15 @@ def analyse(pid, case, obs):
             kind = c["kind"]
             if o[0] == 3 and o[1] == 0:
                 if kind == 0:
-                    fails.append("op %d: snapshot waits for the writer lock" % n)
+                    fails.append("op %d: snapshot waits for the writer lock" % n, "C18")
                 if kind == 2:
-                    fails.append("op %d: try_update waits for the writer lock" % n)
+                    fails.append("op %d: try_update waits for the writer lock" % n, "C18")
                 continue
             c["steps"] += 1
             hl = HEAD.get(o[0], len(o))
             rest = o[hl:]
             if o[0] in (3, 4, 5) and kind == 0:
-                fails.append("op %d: snapshot performed a lock operation" % n)
+                fails.append("op %d: snapshot performed a lock operation" % n, "C18")
             if o[0] == 1:
                 if o[1] == 0:
                     c["seqs"].append(o[4])
@@ -114,9 +120,9 @@ def analyse(pid, case, obs):
                         c["stale"] = acc[-1][0]
                 elif o[0] == 4:
                     if holder is None:
-                        fails.append("op %d: try_lock refused on a free lock" % n)
+                        fails.append("op %d: try_lock refused on a free lock" % n, "C18")
                     if rest[:2] != [12, 0]:
-                        fails.append("op %d: try_update did not return false at once on a held lock" % n)
+                        fails.append("op %d: try_update did not return false at once on a held lock" % n, "C18")
             elif o[0] == 5:
                 if holder == tid:
                     holder = None
@@ -142,13 +148,13 @@ def analyse(pid, case, obs):
                 sq = c["seqs"]
                 for i in range(1, len(sq)):
                     if sq[i] != sq[i - 1] and sq[i] < sq[i - 1]:
-                        fails.append("op %d: snapshot retried on an older sequence number" % n)
-                if pid == "C18" and c["steps"] > 1 + 3 * max(1, len(sq) - 1):
-                    fails.append("op %d: snapshot took %d steps for %d passes" % (n, c["steps"], len(sq) - 1))
+                        fails.append("op %d: snapshot retried on an older sequence number" % n, "C18")
+                if c["steps"] > 1 + 3 * max(1, len(sq) - 1):
+                    fails.append("op %d: snapshot took %d steps for %d passes" % (n, c["steps"], len(sq) - 1), "C18")
             elif rest[0] == 12:
                 if c["stale"] and rest[1] != 0:
                     fails.append("op %d: try_update with a stale base time reported success" % n)
-    return fails
+    return [t for o, t in allf if o == pid]
 
 
 def solo_bound_check(case, obs):
